@@ -15,7 +15,10 @@ Refusals: hash() raising passlib.exc.PasswordValueError (PasswordSizeError, Pass
 NullPasswordError derive from it) or a UnicodeError for a password that is not text in the hasher's encoding is
 "inadmissible password"; counted in host["inadmissible"], never a failure.
 """
+import json
+import os
 import stringprep
+import sys
 import time
 import unicodedata
 from itertools import zip_longest
@@ -725,6 +728,7 @@ def build(tier, rng):
                 n_near = SLOW_NEAR if quick and "libpass." + nm in SLOW and len(pw) > 1000 else near
                 run_case(g_lib, st, "libpass." + nm, obj, {"_light": default_cost and quick}, label, pwname, pw, rng, n_near, verify=verify, hash_=hash_, identify=obj.identify, canon=canon, sig=sig)
 
+    g_first = first_use_group(registry, skipped)
     groups = [g_reg, g_wrap, g_dis, g_lib]
     now = time.time()
     for g in groups:  # Group.out() reports now - t0: make that the time spent in this group's cases
@@ -737,7 +741,106 @@ def build(tier, rng):
         "min_near_misses_in_a_case": st.min_near,
         "seconds": round(time.time() - t_start, 1),
     }
-    return groups, skipped, host
+    return groups + [g_first], skipped, host
+
+
+_CHILD = r"""
+import json, sys, warnings
+warnings.simplefilter("ignore")
+from passlib import registry
+name, order, good, ctx = sys.argv[1], sys.argv[2], sys.argv[3], json.loads(sys.argv[4])
+h = registry.get_crypt_handler(name)
+kw = {}
+mr = getattr(h, "min_rounds", None)
+if "rounds" in (getattr(h, "setting_kwds", None) or ()) and isinstance(mr, int):
+    kw["rounds"] = max(mr, 1) | (1 if name.endswith("bsdi_crypt") else 0)
+try:
+    sub = h.using(**kw) if kw else h
+except Exception:
+    sub = h
+out = {}
+try:
+    if order == "verify-first":
+        out["verify_good_first_call"] = sub.verify("pw", good, **ctx)
+        out["verify_wrong_first"] = sub.verify("pw2", good, **ctx)
+    h1 = sub.hash("pw", **ctx)
+    out["first_hash"] = h1 if isinstance(h1, str) else h1.decode("latin-1")
+    out["verify_own"] = sub.verify("pw", h1, **ctx)
+    out["verify_wrong"] = sub.verify("pw2", h1, **ctx)
+except Exception as err:
+    out["error"] = f"{type(err).__name__}: {err}"
+print(json.dumps(out))
+"""
+
+
+def first_use_group(registry, skipped):
+    """the very first hash()/verify() of a hasher in a fresh interpreter (lazy backend loading happens inside that call)"""
+    import subprocess
+    from concurrent.futures import ThreadPoolExecutor
+
+    g = Group(
+        "first-use-in-a-fresh-process",
+        "GenericHandler.hash/verify",
+        "every registry hasher with a backend on this host x {hash first, verify first} in a fresh interpreter, password 'pw', minimum cost: the first hash verifies "
+        "(in the child and again in this warm process), a hash made here verifies on the child's first call, the wrong password does not",
+    )
+    jobs = []
+    for name in registry.list_crypt_handlers():
+        if name in DISABLED or name in ("plaintext", "ldap_plaintext", "roundup_plaintext"):
+            continue
+        try:
+            h = registry.get_crypt_handler(name)
+            base = base_of(h)
+            if getattr(base, "backends", None) and not any(base.has_backend(b) for b in base.backends):
+                continue
+            ctx = {}
+            for k in getattr(base, "context_kwds", ()) or ():
+                if k in ("user", "realm"):
+                    ctx[k] = "u" if k == "user" else "r"
+            kw = {}
+            mr = getattr(h, "min_rounds", None)
+            if "rounds" in (getattr(h, "setting_kwds", None) or ()) and isinstance(mr, int):
+                kw["rounds"] = max(mr, 1) | (1 if name.endswith("bsdi_crypt") else 0)
+            try:
+                sub = h.using(**kw) if kw else h
+            except Exception:  # noqa: BLE001
+                sub = h
+            good = sub.hash("pw", **ctx)
+            if sub.verify("pw2", good, **ctx):
+                continue  # formats where 'pw' and 'pw2' are documented equivalents do not exist; guard anyway
+        except Exception as err:  # noqa: BLE001
+            skipped.append(f"first-use {name}: {type(err).__name__}: {str(err)[:60]}")
+            continue
+        for order in ("hash-first", "verify-first"):
+            jobs.append((name, order, good if isinstance(good, str) else good.decode("latin-1"), ctx, sub))
+
+    def run(job):
+        name, order, good, ctx, sub = job
+        env = dict(os.environ)
+        p = subprocess.run([sys.executable, "-c", _CHILD, name, order, good, json.dumps(ctx)], capture_output=True, text=True, timeout=300, env=env)
+        line = (p.stdout.strip().splitlines() or [""])[-1]
+        try:
+            return job, json.loads(line)
+        except ValueError:
+            return job, {"error": "child produced no result: " + (p.stderr or p.stdout)[-200:]}
+
+    with ThreadPoolExecutor(8) as ex:
+        for (name, order, good, ctx, sub), out in ex.map(run, jobs):
+            g.case((name, order))
+            w = {"hasher": name, "order": order, "child": out}
+            if not g.check("error" not in out, f"first-use:{name}:error", "first use in a fresh process raised", w):
+                continue
+            g.check(out.get("verify_own") is True, f"first-use:{name}:own-hash-rejected", "the first hash made in a fresh process does not verify its password", w)
+            g.check(out.get("verify_wrong") is False, f"first-use:{name}:wrong-accepted", "the first hash made in a fresh process verifies another password", w)
+            if order == "verify-first":
+                g.check(out.get("verify_good_first_call") is True, f"first-use:{name}:first-verify-rejected", "the first verify() call of a fresh process rejects a valid hash", w)
+                g.check(out.get("verify_wrong_first") is False, f"first-use:{name}:first-verify-wrong-accepted", "the first verify() calls of a fresh process accept another password", w)
+            try:
+                again = sub.verify("pw", out["first_hash"], **ctx)
+            except Exception as err:  # noqa: BLE001
+                again = f"{type(err).__name__}: {err}"
+            g.check(again is True, f"first-use:{name}:first-hash-wrong", "the first hash made in a fresh process is rejected by a warm process (it is not the format's digest)", dict(w, warm_verify=repr(again)))
+    return g
 
 
 if __name__ == "__main__":
